@@ -10,6 +10,90 @@ def _norm(s):
     return re.sub(r"\s+", "", s)
 
 
+def _sub(name, repl, text):
+    return re.sub(r"(?<![A-Za-z0-9_§.:])%s(?![A-Za-z0-9_])" % re.escape(name), repl, text)
+
+
+def _canon_next(body):
+    """TrieEntryIter::next with its locals replaced by placeholders found through their DEFINING expressions (so neither their
+    names, nor where `unit` is declared, nor whether the text byte is bound as a reference or as a value, nor a `let` for the
+    repeated cast `byte as usize` matter).  Every step is a consistent renaming of a bound local or the replacement of an
+    immutable local by its pure defining expression; whatever does not fit stays as it is and fails the comparison."""
+    b = body
+    m = re.search(r"\blet\s+mut\s+(\w+)\s*=\s*self\.node_pos\s*;", b)
+    if m:
+        b = _sub(m.group(1), "§n", b)
+    m = re.search(r"\bfor\s+(\w+)\s+in\s+self\.offset\s*\.\.\s*self\.data\.len\(\)", b)
+    if m:
+        b = _sub(m.group(1), "§i", b)
+    # the text byte: `let k = self.data.get(i).unwrap();` used as `*k`, or `let k = *self.data.get(i).unwrap();` / `self.data[i]` used as `k`
+    m = re.search(r"\blet\s+(\w+)\s*=\s*(\*?)\s*self\.data\.get\(§i\)\.unwrap\(\)\s*;|\blet\s+(\w+)\s*=\s*self\.data\[§i\]\s*;", b)
+    if m:
+        name = m.group(1) or m.group(3)
+        by_value = bool(m.group(2)) or bool(m.group(3))
+        b = b[:m.start()] + b[m.end():]
+        if by_value:
+            b = _sub(name, "§k", b)
+        else:
+            b = re.sub(r"\*\s*(?<![A-Za-z0-9_§])%s(?![A-Za-z0-9_])" % re.escape(name), "§k", b)
+    # a binding for the repeated cast
+    m = re.search(r"\blet\s+(\w+)\s*=\s*§k\s+as\s+usize\s*;", b)
+    if m:
+        name = m.group(1)
+        b = b[:m.start()] + b[m.end():]
+        b = _sub(name, "§k as usize", b)
+    # the unit read at the probed position: declared up front and assigned, or declared where it is read
+    m = re.search(r"(?:\blet\s+(?:mut\s+)?)?(?<![A-Za-z0-9_§])(\w+)\s*=\s*self\.get\(§n\)\s*as\s+usize\s*;", b)
+    if m:
+        name = m.group(1)
+        b = re.sub(r"\blet\s+mut\s+%s\s*;" % re.escape(name), "", b)
+        b = re.sub(r"\blet\s+(?:mut\s+)?%s\s*=" % re.escape(name), name + " =", b)
+        b = _sub(name, "§u", b)
+    m = re.search(r"\blet\s+(\w+)\s*=\s*TrieEntry::new\(", b)
+    if m:
+        b = _sub(m.group(1), "§r", b)
+    return _norm(b)
+
+
+def _struct_fields(lit):
+    """top-level `field: expr` / shorthand items of a struct literal body, as a sorted list (their order is immaterial)"""
+    items, depth, cur = [], 0, ""
+    for ch in lit:
+        if ch in "([{":
+            depth += 1
+        elif ch in ")]}":
+            depth -= 1
+        if ch == "," and depth == 0:
+            items.append(cur)
+            cur = ""
+        else:
+            cur += ch
+    if cur.strip():
+        items.append(cur)
+    return sorted(_norm(x) for x in items if x.strip())
+
+
+def _with_helpers(impl_text, name, rel):
+    """white-space-free body of `fn name`, followed by the bodies of the PRIVATE methods of the same impl that it calls as
+    `self.helper(a, b, ..)` with plain identifiers that are exactly the helper's parameter names: such a helper reads as if it
+    were written in place (same names for the same values), so substring facts about the statements may look into it.
+    One level deep; anything else (renamed / computed arguments, public or foreign functions) is not followed."""
+    body = _norm(F.fn_body(impl_text, name, rel))
+    out = body
+    for hm in re.finditer(r"self\.(\w+)\(([A-Za-z_0-9,]*)\)", body):
+        h, args = hm.group(1), [a for a in hm.group(2).split(",") if a]
+        sig = re.search(r"(?<!pub )\bfn\s+%s\s*\(\s*&(?:mut\s+)?self\s*,?([^)]*)\)" % re.escape(h), impl_text)
+        if not sig or re.search(r"\bpub(?:\([a-z]+\))?\s+fn\s+%s\b" % re.escape(h), impl_text):
+            continue
+        params = [p.split(":")[0].replace("mut ", "").strip() for p in sig.group(1).split(",") if p.strip()]
+        if params == args:
+            try:
+                out += "§helper{" + _norm(F.fn_body(impl_text, h, rel)) + "}"
+            except F.FactError:
+                pass
+    return out
+
+
 def gen():
     t = F.strip_comments(F.src(REL))
     out = [F.HEADER]
@@ -48,26 +132,24 @@ def gen():
     m = re.search(r"impl<'a>\s*Iterator\s+for\s+TrieEntryIter<'a>\s*\{(.*?)\n\}\n", t, flags=re.S)
     if not m:
         raise F.FactError("impl Iterator for TrieEntryIter not found")
-    nb = _norm(F.fn_body(m.group(1), "next", REL))
+    nb = _canon_next(F.fn_body(m.group(1), "next", REL))
     shape = """
-        let mut node_pos = self.node_pos;
-        let mut unit;
-        for i in self.offset..self.data.len() {
-            let k = self.data.get(i).unwrap();
+        let mut §n = self.node_pos;
+        for §i in self.offset..self.data.len() {
             %s
-            node_pos ^= *k as usize;
-            unit = self.get(node_pos) as usize;
-            if Trie::label(unit) != *k as usize { return None; }
-            node_pos ^= Trie::offset(unit);
-            if Trie::has_leaf(unit) {
-                let r = TrieEntry::new(Trie::value(self.get(node_pos)), i + 1);
-                self.offset = r.end;
-                self.node_pos = node_pos;
-                return Some(r);
+            §n ^= §k as usize;
+            §u = self.get(§n) as usize;
+            if Trie::label(§u) != §k as usize { return None; }
+            §n ^= Trie::offset(§u);
+            if Trie::has_leaf(§u) {
+                let §r = TrieEntry::new(Trie::value(self.get(§n)), §i + 1);
+                self.offset = §r.end;
+                self.node_pos = §n;
+                return Some(§r);
             }
         }
         None"""
-    if nb == _norm(shape % "if *k == 0 { return None; }"):
+    if nb == _norm(shape % "if §k == 0 { return None; }"):
         nul_stops = True
     elif nb == _norm(shape % ""):
         nul_stops = False
@@ -76,10 +158,14 @@ def gen():
     out.append("(* a NUL byte of the text stops the traversal before any unit is read *)\nDefinition nul_stops : bool := %s.\n" % ("true" if nul_stops else "false"))
     out.append('Definition next_shape : string := "xor-key;read;label-ne-stop;xor-offset;leaf-yield(value(read),i+1);save(offset,node_pos)".\n')
 
-    # common_prefix_iterator starts at offset(unit 0)
-    cb = _norm(F.fn_body(t, "common_prefix_iterator", REL))
-    if "letunit:usize=self.get(0)asusize;" not in cb or "node_pos:Trie::offset(unit)" not in cb or not re.search(r"\boffset,", cb):
-        raise F.FactError("common_prefix_iterator no longer starts at Trie::offset(array[0]) with the caller's offset")
+    # common_prefix_iterator starts at offset(unit 0) and keeps the caller's input and offset (field order is immaterial)
+    cbs = F.fn_body(t, "common_prefix_iterator", REL)
+    mr = re.search(r"\blet\s+(\w+)\s*(?::\s*usize\s*)?=\s*self\.get\(0\)\s*as\s+usize\s*;", cbs)
+    ml = re.search(r"TrieEntryIter\s*\{(.*)\}", cbs, flags=re.S)
+    fields = _struct_fields(ml.group(1)) if ml else []
+    fields = ["offset" if f == "offset:offset" else f for f in fields]
+    if not mr or sorted(fields) != sorted(["node_pos:Trie::offset(%s)" % mr.group(1), "data:input", "trie:&self.array", "offset"]):
+        raise F.FactError("common_prefix_iterator no longer starts at Trie::offset(array[0]) with the caller's input and offset")
     out.append("Definition ROOT_INDEX : N := 0%N.\n")
 
     # word id table reader: count byte then u32 little endian (read_unaligned of u32 on a little-endian target)
@@ -111,7 +197,7 @@ def gen():
     ok = ok and "l.lookup(input,offset)" in ls and "min(" not in ls and "input[" not in ls
     st = F.strip_comments(F.src("sudachi/src/analysis/stateful_tokenizer.rs"))
     mm = re.search(r"impl<'a>\s*LatticeBuilder<'a>\s*\{(.*)", st, flags=re.S)
-    bl = _norm(F.fn_body(mm.group(1), "build_lattice", "stateful_tokenizer.rs")) if mm else ""
+    bl = _with_helpers(mm.group(1), "build_lattice", "stateful_tokenizer.rs") if mm else ""
     ok = ok and "letinput_bytes=self.input.current().as_bytes();" in bl and "self.lexicon.lookup(input_bytes,byte_off)" in bl and "input_bytes[" not in bl
     ml = body("sudachi/src/analysis/mlist.rs", "lookup")
     ok = ok and "lex.lookup(query.as_bytes(),0)" in ml
